@@ -152,10 +152,10 @@ def run_verus(unit, spec, pid, bdir, ex):
             o.detail = 'verus timeout' if to else 'verus produced no JSON: ' + err[-500:]
         return list(obls.values()), info
     vr = d['verification-results']
-    info['verified'] = vr['verified']
-    info['errors'] = vr['errors']
+    info['verified'] = vr.get('verified', 0)
+    info['errors'] = vr.get('errors', 0)
     lines = text.split('\n')
-    if vr.get('encountered-vir-error') or (vr.get('encountered-error') and vr['errors'] == 0):
+    if vr.get('encountered-vir-error') or (vr.get('encountered-error') and vr.get('errors', 0) == 0):
         # compile / unsupported-construct error: undecided
         msg = '; '.join('%s (line %s: %s)' % (x.get('message'), (x['spans'][0]['line_start'] if x.get('spans') else '?'),
                                                (lines[x['spans'][0]['line_start'] - 1].strip() if x.get('spans') else ''))
